@@ -837,7 +837,7 @@ func main() {
 				cs.Add(hx.CoqList(hops), map[string]interface{}{"history": id, "observed": jsn})
 				// layer B (cache model): histories that commit / reload / set a cache limit
 				if hopsB != nil && (rn.flags["commit"] || rn.flags["reload"] || rn.flags["limit"]) {
-					if srcB, _ := modelCost(hopsB); srcB <= 3000*2 && nBcases%bEvery == 0 {
+					if srcB, _ := modelCost(hopsB); srcB <= 3000*2 && nBcases%bEvery == 0 && csB.Total() < 1600 { // at most 20 more shards
 						csB.Add(hx.CoqList(hopsB), map[string]interface{}{"history": id, "observedB": hopsB})
 					}
 					nBcases++
